@@ -522,10 +522,15 @@ func runC12(e *core.Env, s *c12Scenario) {
 	}
 	w.Settle()
 	sr.log.checkRefused()
+	sr.log.checkInvocations()
 	w.Unpark()
 	w.Settle()
 	sr.usableAfterwards(c12FinalTag)
 	for _, p := range w.peers {
+		if p.ct != nil && p.ct.SR.Dead {
+			e.Probe("tap_gave_up_on_garbage")
+			e.Logf("tap of conn %d (delivered to server) stopped decoding: %s", p.Idx, p.ct.SR.DeadWhy)
+		}
 		if p.Closed && p.closedBy == "server" {
 			e.Probe("conn_closed_by_server")
 		}
